@@ -158,11 +158,15 @@ class C01(Check):
                   "(c01_trace_confined, tool pathway likewise), a node of an undispatched class is an error that evaluates "
                   "nothing, metabolize never raises whatever parser/primitives/tools/print do, and the walker takes at most "
                   "one step per AST node; the tables, dispatch and function shapes are regenerated from the source on every "
-                  "run and proved to lie within the property's allow-list (Gen_C01_ok). Resource bound: refuted by the known "
-                  "finding C01/unbounded-primitive (9**9**9); every other input is checked against a wall-clock budget.")
+                  "run and proved to lie within the property's allow-list (Gen_C01_ok). Resource bound: at most one step per "
+                  "AST node (theorem) times the cost of one primitive; since fix a9a4a4e the three primitives that can build "
+                  "arbitrarily large results (pow, mul, factorial) refuse results beyond MAX_RESULT_BITS (their shape is "
+                  "template-matched by the translator; their cost is measured by a child-process resource stream against a "
+                  "wall-clock budget, which is a test, not a theorem).")
     LEVEL_NOTE = ("Trusts: Coq kernel+VM; translators/mito.py (template match of each walker branch and modelled function); "
-                  "CPython's ast.parse; values and what Python does to them are oracles (recorded per case); the timeout part "
-                  "of the property is not provable (the code never reads its timeout) and is a recorded finding. No axioms.")
+                  "CPython's ast.parse; values and what Python does to them are oracles (recorded per case); timeout_seconds is "
+                  "still not consulted by the code: the time bound rests on the step bound and on the size-bounded "
+                  "primitives, not on the configured timeout. No axioms.")
     TECHNIQUE = "Coq proof over a monadic walker model + source-to-Coq translator of the allow-list tables/dispatch + oracle-table correspondence"
     TRUSTED = ["translators/mito.py: tables/dispatch extraction and template matching of branch bodies and of metabolize, "
                "_detect_pathway, the four pathway functions, _require_capabilities, execute_tool_call",
@@ -511,7 +515,7 @@ class C01(Check):
                   "factorial(2000)", "'a' * 3", "not 1", "9 ** 0.5", "lambda: 1", "pi(1)", "2 ** 10 ** 2"]
         n_agent = 0
         for e in exprs:
-            if len(e) > 400 or self._slow_signature(e) == "C01/unbounded-primitive":
+            if len(e) > 400:
                 continue            # resource cases run in the child-process stream above
             content = f"please calculate {e}"
             ag_raised = None
@@ -557,9 +561,15 @@ class C01(Check):
         stream = [("9**9**9", None), ("2**100000", None), ("factorial(3000)", None), ("'ab' * 10**9", None),
                   ("1" + "+1" * 2000, None), ("-" * 5000 + "1", "math"), ("(" * 4000 + "1" + ")" * 4000, None),
                   ("not " * 2400 + "1", "logic"), ("[" * 5000 + "]" * 5000, None), ("x" * 100000, None),
-                  ("10**10**8", "math"), ("[0] * 10**10", None)]
+                  ("10**10**8", "math"), ("[0] * 10**10", None),
+                  # many bounded results alive at once / quadratic concatenation / long chains of big-integer work
+                  ("+".join(["10**4*'a'"] * 990), None), ("max(" + ",".join(["[0]*10**4"] * 700) + ")", None),
+                  ("*".join(["2**499999"] * 500), None), ("+".join(["2**499999"] * 900), None),
+                  ("sum([" + ",".join(["2**499999"] * 600) + "])", None), ("factorial(50000)*factorial(50000)", None),
+                  ("2**2**2**2**2**2", None), ("'a' * 10**4 * 10**4", None), ("(1, 2) * 10**9", None),
+                  ("factorial(10**6)", None), ("[[0]*10**4]*10**4", None)]
         if self.tier == "quick":
-            stream = stream[:10]
+            stream = stream[:10] + stream[12:18]
         limit = 4.0
         results = []
         ctx = multiprocessing.get_context("fork")
